@@ -114,7 +114,7 @@ def run(chk: Check) -> None:
     for f in own.functions:
         chk.functions.add(f)
     for prop, rule, construct, ok, loc, msg, facts in own.obs:
-        if prop == "C04":
+        if prop == "C04" or (prop == "C03" and rule == "R03.3"):
             chk.ob(rule, construct, ok, loc, msg, facts)
     chk.floor("R03.2", "back-pointer writes", own.counts.get("backptr_writes", 0), 9)
     chk.floor("R04.1", "parent setters", own.counts.get("parent_setters", 0), 4)
